@@ -472,6 +472,13 @@ func main() {
 					if proto == "tcp" {
 						s.send(tmplSet(400, ies))
 					}
+				case x == 9: // first record built for the set's template, a later one for another known template
+					d := dataSet(r, 256, big, 1+r.Intn(2), 10, 60000)
+					d.recs = append(d.recs, rec{tid: 257, ies: addr, vals: randVals(r, addr, 20)})
+					if r.Intn(2) == 0 {
+						d.recs = append(d.recs, dataSet(r, 256, big, 1, 10, 60000).recs...)
+					}
+					s.send(d)
 				case x == 8: // records built for another (known) template than the set's
 					d := dataSet(r, 257, addr, 1+r.Intn(2), 10, 60000)
 					d.hdrID = 256
